@@ -124,6 +124,11 @@ def generic_replay(fn, cex):
         m = _re.match(r"\s*post:\s*(.*)", line)
         if m:
             post = m.group(1)
+    import sys as _sys
+
+    _w = _sys.modules.get("vlib.world")
+    if _w is not None:
+        _w.W.concrete = True  # templates are instantiated with real literals: nothing of the rendering stub is left
     try:
         ret = fn(*ba.args, **ba.kwargs)
     except Exception as e:
